@@ -61,7 +61,7 @@ def run(p, report, tier):
     report.rule("R9.1", "every call that partitions or aggregates labels by the sentinel (is_labeled, is_unlabeled, "
                 "labeled_indices, unlabeled_indices, compute_vote_vectors, majority_vote, ext_confusion_matrix) on an "
                 "array that is not a model prediction binds missing_label explicitly; a literal -1 is accepted only on "
-                "label-encoder output", floor=70)
+                "label-encoder output", floor=60)
     report.rule("R9.2", "an array that is concatenated with a label array is not created as np.full(n, np.nan): the "
                 "filler must be the strategy's sentinel", floor=2)
     report.rule("R9.3", "project models and encoders constructed inside strategies / classifiers receive an explicit "
